@@ -14,6 +14,10 @@ import (
 )
 
 func runThoroughExtras(id string, r *Report) {
+	if os.Getenv("VERIF_SKIP_SELFTEST") != "" {
+		r.Extra["self_test"] = "skipped (VERIF_SKIP_SELFTEST set: debugging run)"
+		return
+	}
 	script := filepath.Join(verifDir, "mutants", "run.py")
 	if _, err := os.Stat(filepath.Join(verifDir, "mutants", id+".json")); err != nil {
 		r.Extra["self_test"] = "no hand-written variants registered for this property"
